@@ -17,8 +17,20 @@ PLAT = """<?xml version='1.0'?>
   </zone>
 </platform>
 """
-NVARS = 14
-INIT = [5, 0, 7, 0, 1, 2, 3, 4, 0, 0, 0, 0, 11, 9]
+NVARS = 16
+INIT = [5, 0, 7, 0, 1, 2, 3, 4, 0, 0, 0, 0, 11, 9, 6, 0]     # 14 / 15: the LAST element of g_arr / s_zarr (64 KiB arrays)
+G_ARR, S_ZARR = [4, 5, 6, 7, 14], [8, 9, 10, 11, 15]
+# message buffers (send, receive): a = g_arr, z = s_zarr, s = stack.  DIFFERENT globals, the SAME global, global <-> stack
+PAIRS = ["az", "za", "az", "za", "aa", "zz", "as", "zs", "sa", "sz"]
+# e: MPI_Send of 4 ints (detached below smpi/send-is-detached-thresh: Request::start duplicates the data at send time)
+# y: MPI_Ssend, i: MPI_Issend + Wait (never detached)   L: MPI_Send of the whole 64 KiB array (= the default threshold: not
+# detached).  Not detached <=> smpi_comm_copy_buffer_callback reads the user's send buffer itself.
+KINDS = ["e", "y", "L", "i", "y", "L"]
+LEGACY = {"gg": "az", "gs": "as", "sg": "sz"}
+
+
+def buf_vars(letter):
+    return G_ARR if letter == "a" else S_ZARR if letter == "z" else []
 
 
 def gen_prog(rng):
@@ -26,6 +38,9 @@ def gen_prog(rng):
     lines = []
     glob = rng.chance(1, 2)                               # messages whose buffers are globals / stack accesses observed
     hot = [rng.below(NVARS) for _ in range(3)]            # a few variables everybody fights over
+    # a program-wide smpi/send-is-detached-thresh: default (64 KiB), or 16 = the size of the 4-int messages exactly (then
+    # plain MPI_Send / Sendrecv / Bcast of 4 ints are NOT detached either), or 17 (4-int messages just below: detached)
+    thresh = rng.choice([None, None, 16, 17]) if glob else None
     step = 0
     for _ in range(rng.range(3, 9)):
         step += 1
@@ -39,16 +54,25 @@ def gen_prog(rng):
                 else:
                     lines.append("%d r %d" % (r, v))
         k = rng.below(5)
+        msg = None
         if glob:
             for r in order:
                 if rng.chance(1, 3):
-                    lines.append("%d ws %d %d" % (r, rng.below(4), 500 * (r + 1) + step))
-            k = rng.below(8)
+                    lines.append("%d ws %d %d" % (r, rng.below(5), 500 * (r + 1) + step))
+            k = rng.below(9)
         if k >= 5:                                            # one message with a global on at least one side
             a = rng.below(n)
             b = (a + 1 + rng.below(n - 1)) % n
-            m = ["gg", "gs", "sg"][k - 5]
-            lines += ["%d gsend %d %s" % (a, b, m), "%d grecv %d %s" % (b, a, m)]
+            m, kind = rng.choice(PAIRS), rng.choice(KINDS)
+            # both ranks give the message buffers rank-specific contents first (every cell, the last element included):
+            # the receiver's copy of the SEND variable must differ from the sender's, or a copy from the wrong rank's
+            # data segment could not be told from the right one
+            for r in (a, b):
+                for v in buf_vars(m[0]) + (buf_vars(m[1]) if m[1] != m[0] else []):
+                    if rng.chance(3, 4):
+                        lines.append("%d w %d %d" % (r, v, 1000 * (r + 1) + 10 * step + rng.below(10)))
+            lines += ["%d gsend %d %s %s" % (a, b, m, kind), "%d grecv %d %s %s" % (b, a, m, kind)]
+            msg = (a, b, m)
         elif k == 0:
             lines.append("* barrier")
         elif k == 1:
@@ -62,17 +86,35 @@ def gen_prog(rng):
         else:
             lines.append("* barrier")
             lines.append("* ring")
+        if msg:
+            # the property's monitor on this message: the receiver reads back the whole receive buffer (the sender's
+            # values) and its own copy of the send variable (unchanged); the sender its copies of both (unchanged)
+            a, b, m = msg
+            for v in buf_vars(m[1]):
+                lines.append("%d r %d" % (b, v))
+            if m[1] == "s":
+                lines += ["%d rr %d" % (b, k) for k in range(5)]
+            for v in (buf_vars(m[0]) if m[0] != m[1] else []):
+                lines.append("%d r %d" % (b, v))
+            for v in buf_vars(m[0]) + (buf_vars(m[1]) if m[1] != m[0] else []):
+                if rng.chance(1, 2):
+                    lines.append("%d r %d" % (a, v))
+            c = rng.below(n)                                  # and a bystander
+            lines += ["%d r %d" % (c, v) for v in buf_vars(m[0]) + buf_vars(m[1]) if rng.chance(1, 3)]
         for r in range(n):
             if rng.chance(1, 2):
                 lines.append("%d r %d" % (r, rng.choice(hot)))
             if glob and rng.chance(1, 2):
-                lines.append("%d %s %d" % (r, rng.choice(["rs", "rr"]), rng.below(4)))
+                lines.append("%d %s %d" % (r, rng.choice(["rs", "rr"]), rng.below(5)))
             if glob and rng.chance(1, 3):
-                lines.append("%d r %d" % (r, 4 + rng.below(8)))      # g_arr / s_zarr: the message buffers
+                lines.append("%d r %d" % (r, rng.choice(G_ARR + S_ZARR)))   # g_arr / s_zarr: the message buffers
     for r in range(n):
         for v in hot:
             lines.append("%d r %d" % (r, v))
-    return {"n": n, "lines": lines, "glob": glob}
+    p = {"n": n, "lines": lines, "glob": glob}
+    if thresh:
+        p["thresh"] = thresh
+    return p
 
 
 def prog_query(prog):
@@ -87,7 +129,8 @@ def prog_query(prog):
             for r in ranks:
                 toks += [c, str(r)] + t[2:]
         elif c == "gsend":
-            toks += [t[3], t[0], t[2]]
+            m = LEGACY.get(t[3], t[3])
+            toks += ["m", t[4] if len(t) > 4 else "e", m[0], m[1], t[0], t[2]]
         elif c == "send":
             toks += ["sr", t[0], t[2]]
         elif c == "bcast":
@@ -125,8 +168,10 @@ class Runner:
         path = os.path.join(self.ctx.work, "script.txt")
         open(path, "w").write("\n".join(prog["lines"]) + "\n")
         cmd = [self.smpirun, "-np", str(prog["n"]), "-platform", self.plat, "-hostfile", self.hosts,
-               "--log=root.thres:critical", "--cfg=smpi/simulate-computation:no", "--cfg=smpi/privatization:" + priv,
-               self.h, path]
+               "--log=root.thres:critical", "--cfg=smpi/simulate-computation:no", "--cfg=smpi/privatization:" + priv]
+        if prog.get("thresh"):
+            cmd.append("--cfg=smpi/send-is-detached-thresh:%d" % prog["thresh"])
+        cmd += [self.h, path]
         for attempt in range(2):
             try:
                 p = core.sh(cmd, timeout=120, env=self.ctx.sg_env(), cwd=self.ctx.work)
@@ -211,8 +256,16 @@ def run(ctx):
         if q.count("w") >= 1 and q.count("r") >= 2:
             ctx.cov["distinct_nontrivial"] += 1
         if q[0] == "P":
-            for m in ("gg", "gs", "sg"):
-                msgs[m] = msgs.get(m, 0) + q.count(m)
+            th = progs[pi].get("thresh") or 65536
+            for i, tk in enumerate(q):
+                if tk == "m" and i + 3 < len(q) and q[i + 2] in "azs" and q[i + 3] in "azs" and q[i + 1] in "eyLi":
+                    kind, m = q[i + 1], q[i + 2] + q[i + 3]
+                    size = 65536 if kind == "L" else 16
+                    nd = kind in "yi" or size >= th                 # Request::start: not detached
+                    cls = ("same-global" if m[0] == m[1] else "different-globals") if "s" not in m else \
+                        ("global-to-stack" if m[1] == "s" else "stack-to-global")
+                    k2 = "%s/%s" % (cls, "user-buffer-in-copy-callback" if nd else "detached-heap-copy")
+                    msgs[k2] = msgs.get(k2, 0) + 1
         if v == "ok":
             ctx.cov["traces_validated_against_impl"] += 1
         elif v.startswith("MONFAIL"):
@@ -220,6 +273,9 @@ def run(ctx):
                           {"prog": progs[pi], "privatization": priv, "rank": r, "line": l}, key=None)
         else:
             ctx.broken.append({"kind": "driver-badline", "line": l[:300], "verdict": v[:200]})
+    if not ctx.replay and not msgs.get("different-globals/user-buffer-in-copy-callback"):
+        ctx.broken.append({"kind": "sanity", "what": "no non-detached message between two different globals was run: the "
+                           "temp copy of smpi_comm_copy_buffer_callback is not exercised"})
     ctx.cov["samples"] = qlines[:2] + qlines[20:22]
     ctx.cov["distribution"] = {"rank_runs_by_strategy": strat, "programs": len(progs),
                                "leaks_seen_with_privatization_off": leaks_off,
